@@ -255,16 +255,6 @@ abbrev completeBfx (map0 : IMap) (pre : List (Frame BfxEvent)) : Bool :=
 abbrev ProceedsBfx (map0 : IMap) (pre mid : List (Frame BfxEvent)) : Prop :=
   Steps (completeBfx map0) (fatal BfxEvent.validate (subscriptionTimeoutMs .bitfinex) silence) pre mid
 
-theorem validateBfx_eq_scan {map0 : IMap} (hn : KeysNodup map0) (frames : List (Frame BfxEvent)) :
-    validateBfx map0 frames
-      = scanWith (completeBfx map0) (fun pre rest => (mapAfter map0 pre, snapshotsOf map0 pre, rest))
-          (fatal BfxEvent.validate (subscriptionTimeoutMs .bitfinex) silence) [] frames := by
-  have := runBfx_eq_scan hn (subscriptionTimeoutMs .bitfinex) map0.length frames []
-  have h0 : bfxSummary map0 [] = { map := map0 } := by
-    simp [bfxSummary, mapAfter, hitCount, chanIdOf_nil, snapshotsOf, others, silence]
-  rw [h0] at this
-  simpa [validateBfx, expectedResponses] using this
-
 /-- (B1) `Ok (map, buffered, rest)` exactly when a prefix of the input is consumed without anything fatal
 and completes the validation; the buffer is what followed the first confirmation. (The returned map is
 characterised in `bfx_map_is_rekeyed`.) -/
